@@ -44,6 +44,12 @@ def on_every_success_path(view, block, targets, operand=None):
     h = next(iter(heads))
     if not must_pass_through(view, h, targets):
         return False
+    return body_always_passes(view, h, block, targets)
+
+
+def body_always_passes(view, h, block, targets):
+    """`h` is the call that yields the next element of a loop (`next()`, `pop()`): on the arm of the switch on its
+    result from which `block` is reachable, no path returns to `h` or reaches a target without passing `block`."""
     # the switch on the Option returned by next()
     x = view.blocks[h]["t"].get("target")
     steps = 0
